@@ -11,7 +11,7 @@ import (
 var interestingU64 = []uint64{0, 1, 2, 3, 16, 36, 37, 38, 127, 128, 255, 256, 32767, 32768, 65535, 65536, 1<<31 - 1, 1 << 31, 1<<32 - 1, 1 << 32, 1<<53 + 1, 1<<63 - 1, 1 << 63, ^uint64(0)}
 
 var jsonSnippets = []string{"null", "{}", "[]", "[null]", `""`, "0", "-1", "1e400", "true", `"\ud800"`, "\"\xff\"", `{"a":`, "]", "}", ",", ":", `"`, `\`, `\u0000`,
-	"18446744073709551616", "4294967296", `"NOPE"`, `"AAAAAAAAAAAAAAAAAAAAAA=="`, `"AAAAAAAAAAAAAAAAAAAAAAA="`, "[[[[[[[[[[", `{"ping":{}}`, `"extension_fields":{}`, `"data_point_groups":[null]`}
+	"18446744073709551616", "4294967296", `"NOPE"`, `"AAAAAAAAAAAAAAAAAAAAAA=="`, `"AAAAAAAAAAAAAAAAAAAAAAA="`, "[[[[[[[[[[", `{"ping":{}}`, `"extension_fields":{}`}
 
 var (
 	reNumber = regexp.MustCompile(`-?[0-9]+`)
